@@ -48,6 +48,8 @@ pub enum Profile {
     Reclaim,
     /// several arenas interleaved (C20)
     Multi,
+    /// sustained allocation against debt-driven cycles with rho close to 1 (C09 rho-bound)
+    Soak,
 }
 
 impl Profile {
@@ -63,6 +65,7 @@ impl Profile {
             "fault" => Profile::Fault,
             "reclaim" => Profile::Reclaim,
             "multi" => Profile::Multi,
+            "soak" => Profile::Soak,
             _ => return None,
         })
     }
@@ -78,6 +81,10 @@ pub struct Gen {
     narenas: usize,
     finishing: u8,
     done: bool,
+    /// after the current callback: run finish_cycle twice (exact-reclamation check)
+    want_reclaim: bool,
+    soak_prev: Option<u32>,
+    soak_pacing: Option<PacingSpec>,
 }
 
 fn dy(n: i64, s: u32) -> Dy {
@@ -88,7 +95,7 @@ impl Gen {
     pub fn new(seed: u64, profile: Profile, max_ops: usize) -> Gen {
         let mut rng = Rng(seed);
         let narenas = if profile == Profile::Multi { 2 + rng.below(2) } else { 1 };
-        Gen { rng, profile, max_ops, emitted: 0, queue: VecDeque::new(), cb_stack: vec![], narenas, finishing: 0, done: false }
+        Gen { rng, profile, max_ops, emitted: 0, queue: VecDeque::new(), cb_stack: vec![], narenas, finishing: 0, done: false, want_reclaim: false, soak_prev: None, soak_pacing: None }
     }
 
     fn pacing(&mut self) -> PacingSpec {
@@ -132,7 +139,123 @@ impl Gen {
         self.rng.pick(&strong).copied().or_else(|| self.rng.pick(&weak).copied())
     }
 
+    /// Scenario: a target that is (at most) weakly marked is upgraded and adopted by an already
+    /// traced holder through a randomly chosen sanctioned path.  Returns false if the current
+    /// state offers no such target.
+    fn scenario_adopt_weak(&mut self, w: &World, ai: usize) -> bool {
+        let sh = &w.arenas[ai].shadow;
+        let cols = &w.arenas[ai].colors;
+        let acc = sh.accessible();
+        // weak slots of accessible objects (or the root) whose target is not marked strongly
+        let mut cands: Vec<(Option<u32>, usize, u32)> = vec![];
+        for (k, s) in sh.root.iter().enumerate() {
+            if let Some(SP::W(t)) = s {
+                cands.push((None, k, *t));
+            }
+        }
+        let mut ids: Vec<u32> = acc.iter().copied().collect();
+        ids.sort();
+        for h in ids {
+            let o = &sh.objs[h as usize];
+            if o.dropped == 0 {
+                for (k, s) in o.slots.iter().enumerate() {
+                    if let Some(SP::W(t)) = s {
+                        cands.push((Some(h), k, *t));
+                    }
+                }
+            }
+        }
+        cands.retain(|(_, _, t)| sh.objs[*t as usize].dropped == 0 && matches!(cols.get(t).map(|c| c.0), Some(b'w') | Some(b'W')));
+        let Some((h, k, t)) = self.rng.pick(&cands).copied() else { return false };
+        // a traced holder to adopt it
+        let mut parents: Vec<u32> = acc.iter().copied().filter(|i| !sh.objs[*i as usize].leaf && sh.objs[*i as usize].dropped == 0 && cols.get(i).map(|c| c.0) == Some(b'B')).collect();
+        parents.sort();
+        let Some(p) = self.rng.pick(&parents).copied() else { return false };
+        match h {
+            None => self.push(ai, Op::ReadRoot(k)),
+            Some(h) => {
+                if !sh.holds(SP::S(h)) {
+                    match sh.path_to(h) {
+                        Some(path) => path.into_iter().for_each(|op| self.push(ai, op)),
+                        None => return false,
+                    }
+                }
+                self.push(ai, Op::Read(h, k));
+            }
+        }
+        self.push(ai, Op::Upgrade(t));
+        if !sh.holds(SP::S(p)) {
+            match sh.path_to(p) {
+                Some(path) => path.into_iter().for_each(|op| self.push(ai, op)),
+                None => return false,
+            }
+        }
+        let i = self.rng.below(3);
+        match self.rng.below(7) {
+            0 => self.push(ai, Op::Store { path: Path::Write, p, i, v: Some(SP::S(t)) }),
+            1 => self.push(ai, Op::Store { path: Path::Stb, p, i, v: Some(SP::S(t)) }),
+            n => {
+                let b = match n {
+                    2 => Barrier::Bb(p, None),
+                    3 | 4 => Barrier::Bb(p, Some(t)),
+                    5 => Barrier::Fb(None, t),
+                    _ => Barrier::Fb(Some(p), t),
+                };
+                self.push(ai, Op::Barrier(b));
+                self.push(ai, Op::Store { path: Path::Raw, p, i, v: Some(SP::S(t)) });
+            }
+        }
+        true
+    }
+
+    /// Scenario: during a sweep, a forward barrier naming a holder the sweep has not reached yet
+    /// (still black) and a fresh object that is then forgotten; followed by finish_cycle x2.
+    fn scenario_barrier_in_sweep(&mut self, w: &World, ai: usize) -> bool {
+        let sh = &w.arenas[ai].shadow;
+        let cols = &w.arenas[ai].colors;
+        let mut parents: Vec<u32> = sh.accessible().into_iter().filter(|i| !sh.objs[*i as usize].leaf && cols.get(i).map(|c| c.0) == Some(b'B')).collect();
+        parents.sort();
+        let Some(p) = self.rng.pick(&parents).copied() else { return false };
+        if !sh.holds(SP::S(p)) {
+            match sh.path_to(p) {
+                Some(path) => path.into_iter().for_each(|op| self.push(ai, op)),
+                None => return false,
+            }
+        }
+        let id = sh.objs.len() as u32;
+        let leaf = self.rng.chance(1, 3);
+        self.push(ai, Op::Alloc { leaf, slots: if leaf { vec![] } else { vec![None, None, None] } });
+        let b = match self.rng.below(4) {
+            0 => Barrier::Fb(Some(p), id),
+            1 => Barrier::Fb(None, id),
+            2 => Barrier::Bb(p, Some(id)),
+            _ => Barrier::Fb(Some(p), id),
+        };
+        self.push(ai, Op::Barrier(b));
+        self.want_reclaim = true;
+        true
+    }
+
     fn callback_op(&mut self, w: &World, ai: usize) {
+        if w.arenas[ai].phase == b'S' && self.rng.chance(1, 10) && self.scenario_barrier_in_sweep(w, ai) {
+            return;
+        }
+        if w.arenas[ai].phase == b'M' && self.rng.chance(1, 3) && self.scenario_adopt_weak(w, ai) {
+            return;
+        }
+        if self.rng.chance(1, 14) {
+            // plant an object that is held weakly only
+            let sh = &w.arenas[ai].shadow;
+            let holders: Vec<u32> = sh.temps.iter().filter_map(|p| if let SP::S(i) = p { Some(*i) } else { None }).filter(|i| !sh.objs[*i as usize].leaf).collect();
+            if let Some(h) = self.rng.pick(&holders).copied() {
+                let id = sh.objs.len() as u32;
+                let k = self.rng.below(3);
+                self.push(ai, Op::Alloc { leaf: false, slots: vec![None, None, None] });
+                self.push(ai, Op::Downgrade(id));
+                self.push(ai, Op::Store { path: Path::Write, p: h, i: k, v: Some(SP::W(id)) });
+                return;
+            }
+        }
         let sh = &w.arenas[ai].shadow;
         let kind = sh.cb.unwrap();
         let strong: Vec<u32> = sh.temps.iter().filter_map(|p| if let SP::S(i) = p { Some(*i) } else { None }).collect();
@@ -146,6 +269,7 @@ impl Gen {
             Profile::Protocol | Profile::Pacing => (15, 35, 25, 10, 10, 5, 0),
             Profile::Metrics => (20, 25, 20, 5, 10, 20, 0),
             Profile::Fault => (25, 20, 30, 10, 10, 5, 0),
+            Profile::Soak => (10, 40, 30, 10, 10, 0, 0),
         };
         let w_fin = if kind == Cb::Finalize { 40 } else { w_fin };
         let total = w_nav + w_alloc + w_store + w_root + w_weak + w_barrier + w_fin;
@@ -189,9 +313,21 @@ impl Gen {
         }
         r -= w_alloc;
         if r < w_store {
-            if let Some(p) = self.rng.pick(&nodes).copied() {
+            let cols = &w.arenas[ai].colors;
+            let marking = w.arenas[ai].phase == b'M';
+            // in the mark phase prefer the combinations a barrier exists for: black holder,
+            // white / white-weak target
+            let black_nodes: Vec<u32> = nodes.iter().copied().filter(|i| cols.get(i).map(|c| c.0) == Some(b'B')).collect();
+            let pick_parent = if marking && !black_nodes.is_empty() && self.rng.chance(2, 3) { self.rng.pick(&black_nodes).copied() } else { self.rng.pick(&nodes).copied() };
+            if let Some(p) = pick_parent {
                 let i = self.rng.below(3);
-                let v = self.slot_value(w, ai, weak_bias);
+                let mut v = self.slot_value(w, ai, weak_bias);
+                if marking && self.rng.chance(1, 2) {
+                    let unmarked: Vec<SP> = sh.temps.iter().copied().filter(|t| matches!(cols.get(&t.id()).map(|c| c.0), Some(b'W') | Some(b'w') | None)).collect();
+                    if let Some(t) = self.rng.pick(&unmarked).copied() {
+                        v = Some(t);
+                    }
+                }
                 let explicit = match self.profile {
                     Profile::Barrier => 6,
                     Profile::Metrics => 3,
@@ -249,6 +385,13 @@ impl Gen {
         }
         r -= w_root;
         if r < w_weak {
+            let cols = &w.arenas[ai].colors;
+            let ww: Vec<u32> = weak.iter().copied().filter(|i| cols.get(i).map(|c| c.0) == Some(b'w') && !sh.holds(SP::S(*i))).collect();
+            if !ww.is_empty() && self.rng.chance(1, 2) {
+                let x = *self.rng.pick(&ww).unwrap();
+                self.push(ai, Op::Upgrade(x));
+                return;
+            }
             match self.rng.below(3) {
                 0 => {
                     if let Some(p) = self.rng.pick(&strong).copied() {
@@ -317,6 +460,56 @@ impl Gen {
         }
     }
 
+    /// One round of the soak workload: a holder that references a fresh object weakly and then
+    /// strongly (in trace order: slot 0 weak, slot 1 strong), chained to the previous holder and
+    /// hung from the root; then one debt-driven call.
+    fn soak_round(&mut self, w: &World, ai: usize) {
+        if self.soak_pacing.is_none() {
+            let fams = [
+                // (mark, trace, keep, drop, free) in sixteenths; rho = 15/16
+                (7, 7, 1, 7, 8),
+                (6, 8, 1, 8, 7),
+                (4, 10, 1, 10, 5),
+                (7, 4, 4, 4, 11),
+            ];
+            let (m, t, k, d, f) = fams[self.rng.below(fams.len())];
+            let p = PacingSpec { sleep: dy(1, 2), min_sleep: 1 + self.rng.below(3), mark: dy(m, 4), trace: dy(t, 4), keep: dy(k, 4), drop: dy(d, 4), free: dy(f, 4) };
+            self.soak_pacing = Some(p);
+            self.push(ai, Op::Pacing(p));
+            return;
+        }
+        let sh = &w.arenas[ai].shadow;
+        let x = sh.objs.len() as u32;
+        let weak_first = self.rng.chance(3, 4);
+        let garbage = self.rng.chance(1, 5);
+        self.push(ai, Op::Enter(Cb::MutateRoot));
+        let mut extra = 0;
+        if let Some(prev) = self.soak_prev {
+            if sh.reachable().contains(&prev) {
+                self.push(ai, Op::ReadRoot(0));
+            } else {
+                self.soak_prev = None;
+            }
+        }
+        self.push(ai, Op::Alloc { leaf: false, slots: vec![None, None, None] });
+        self.push(ai, Op::Downgrade(x));
+        let prev_slot = self.soak_prev.map(SP::S);
+        let slots = if weak_first { vec![Some(SP::W(x)), Some(SP::S(x)), prev_slot] } else { vec![Some(SP::S(x)), Some(SP::W(x)), prev_slot] };
+        self.push(ai, Op::Alloc { leaf: false, slots });
+        if garbage {
+            let leaf = self.rng.chance(1, 2);
+            self.push(ai, Op::Alloc { leaf, slots: if leaf { vec![] } else { vec![None, None, None] } });
+            extra = 1;
+        }
+        let _ = extra;
+        self.push(ai, Op::RootStore { i: 0, v: Some(SP::S(x + 1)) });
+        self.push(ai, Op::Leave { panic: false });
+        self.cb_stack.clear();
+        self.soak_prev = Some(x + 1);
+        let method = if self.rng.chance(5, 6) { Method::CycleDebt } else { Method::CollectDebt };
+        self.push(ai, Op::Collect { method, cont: Cont::Drop, fault: None });
+    }
+
     fn top_level(&mut self, w: &World) {
         // create arenas first
         if w.arenas.len() < self.narenas {
@@ -331,6 +524,15 @@ impl Gen {
             self.done = true;
             return;
         };
+        if self.want_reclaim {
+            self.want_reclaim = false;
+            self.push(ai, Op::Collect { method: Method::FinishCycle, cont: Cont::Drop, fault: None });
+            self.push(ai, Op::Collect { method: Method::FinishCycle, cont: Cont::Drop, fault: None });
+            return;
+        }
+        if self.profile == Profile::Soak {
+            return self.soak_round(w, ai);
+        }
         let r = self.rng.below(100);
         let (p_mut, p_mroot, p_collect) = match self.profile {
             Profile::Protocol => (25, 10, 60),
